@@ -9,9 +9,9 @@
           runBTR r σ  agrees with  X86.step i st   on every register, flag, memory byte and the next address
 
   WHAT IS PROVED HERE (all of it universal over operand values / register contents / states; nothing is bounded):
-    (A) mirror + theorem, INSTRUCTION LEVEL (`lift_correct_rr/ri/un/rm/mr/mi/lea/setcc/cmov/jcc/test/xchg/extend/pop64`): 64-bit mode,
+    (A) mirror + theorem, INSTRUCTION LEVEL (`lift_correct_rr/ri/un/rm/mr/mi/lea/setcc/cmov/jcc/test/xchg/extend/push64/pop64`): 64-bit mode,
         {mov add sub cmp and or xor} x (reg,reg | reg,imm | reg,[mem] | [mem],reg | [mem],imm), lea, and
-        {inc dec neg not} x register, setcc r8, cmovcc r,r and jcc rel (14 codes each), test r,r|r,imm, xchg r,r, movzx/movsx/movsxd r,r, pop r64; memory operands = base + index*scale + disp with 64-bit registers or rip, mapped
+        {inc dec neg not} x register, setcc r8, cmovcc r,r and jcc rel (14 codes each), test r,r|r,imm, xchg r,r, movzx/movsx/movsxd r,r, push r64, pop r64; memory operands = base + index*scale + disp with 64-bit registers or rip, mapped
         and non-wrapping accesses; registers at every operand size and shape — 64-bit, 32-bit (zero-extending), 16-bit, low byte, and the high-byte
         registers ah/ch/dh/bh — every pair of registers (aliasing included), every state: `runBTR` of the mirrored
         `BlockTranslationResult` agrees with `X86.step` on all sixteen general registers, CF ZF SF OF, memory and the
@@ -419,6 +419,15 @@ theorem lift_correct_pop64 (i : Nat) (hi : i < 16) (addr len : Nat) (haddr : add
     (hwrap : (st.gpr 4).toNat + 8 ≤ 2 ^ 64) :
     ∃ ops, opsPop64 addr ⟨i, 64, 0⟩ = .ok ops ∧ Agrees (straight addr len ops) σ (ins1g "pop" addr len ⟨i, 64, 0⟩) st :=
   lift_pop64 i hi addr len haddr σ st hok bs hmap hwrap
+
+/-- **lift_correct_push64**: `push r64` for every register (`push rsp` included: the OLD stack pointer is stored) — the
+    IL stores the register at `rsp - 8`, then subtracts 8 from `rsp`; memory is compared as well (`AgreesM`); premise:
+    the eight bytes at `rsp - 8` are mapped and do not wrap the address space. -/
+theorem lift_correct_push64 (i : Nat) (hi : i < 16) (addr len : Nat) (haddr : addr + len < 2 ^ 64) (σ : State) (st : St)
+    (hok : Abs σ st) (bs : List UInt8) (hmap : st.mem.readBytes (st.gpr 4 - 8#64).toNat 8 = some bs)
+    (hwrap : (st.gpr 4 - 8#64).toNat + 8 ≤ 2 ^ 64) :
+    ∃ ops, opsPush64 ⟨i, 64, 0⟩ = .ok ops ∧ AgreesM (straight addr len ops) σ (ins1g "push" addr len ⟨i, 64, 0⟩) st :=
+  lift_push64 i hi addr len haddr σ st hok bs hmap hwrap
 
 /-! ### non-vacuity -/
 
